@@ -130,11 +130,17 @@ def check_case(case, ctx):
         paths = pc.get_paths()
         ctx.check(len(paths) == len(live), "C19.one_patch_per_cell",
                   lambda: f"{what}: {len(paths)} patches for {len(live)} cells with geometry")
+        reference_cells = refmodel.cells(spec) if refmodel.cells_defined_by_statement(spec) else None
         for k, n in enumerate(live[:len(paths)]):
             got = [tuple(float(c) for c in v) for v in paths[k].vertices]
             want = refmodel.polygon_ring(polygons[n])
             ctx.check(got == want, "C19.patch_outline",
                       lambda: f"{what}: patch {k} has vertices {got}; cell {n} has outline {want}")
+            if reference_cells is not None and reference_cells[n] is not None:
+                corners = {tuple(float(c) for c in p) for p in reference_cells[n]}
+                ctx.check(set(got) == corners, "C19.patch_outline",
+                          lambda: f"{what}: patch {k} has vertices {sorted(set(got))}; the dataset gives "
+                          f"cell {n} the corners {sorted(corners)}")
         if given in ("name", "array", "derived"):
             arr = pc.get_array()
             ctx.check(arr is not None and len(arr) == len(live), "C19.patch_values",
